@@ -106,14 +106,14 @@ def extra(root, out_dir, tier, seed, findings, cov):
 
 CFG = {
     "level": "proof",
-    "level_text": "Lean theorems over strings as code-point lists and byte strings as lists of naturals: the UTF-8 encoder/decoder pair is mutually inverse on scalar values, the strict decoder accepts nothing else and lossy decoding agrees with it on valid input (utf8_roundtrip, utf8_decode_sound, utf8_decode_rejects_invalid, utf8_lossy_valid); the byte-slice/char_indices walk of std.findSubstr returns exactly the ascending code-point indices of all, possibly overlapping, occurrences (findSubstr_spec, findSubstr_mem, findSubstr_sorted) and byte-wise std.startsWith is the code-point prefix test (startsWith_spec), both resting on a proof that UTF-8 is prefix-free; std.substr is the code-point window cut at the end of the string (substr_spec, substr_length); the stripChars family with its early-return guards removes exactly a run of listed characters at the chosen end(s) and leaves a string not starting/ending with one (lstrip_spec, rstrip_spec, strip_spec); parse_nat's checked_sub digit cascade and fused f64 fold give the exact positional value whenever it is below 2^53 and are an error exactly for the empty string and strings containing a non-digit of the base, including every non-ASCII character and ':'..'@' (digitOf_spec, parseNat_spec, parseNat_reject_iff, non_digit_rejected, parseInt_spec); std.char/std.codepoint are inverse on scalar values and std.char fails exactly on negatives, surrogates and values above U+10FFFF (char_codepoint_inverse, codepoint_char_inverse, char_err_iff); byte-wise asciiUpper/asciiLower/equalsIgnoreCase touch only ASCII letters and equal the code-point definitions (asciiUpper_spec, asciiLower_spec, upper_lower_ascii_only, equalsIgnoreCase_spec); base64 decoding inverts encoding on all byte strings and strings (base64_roundtrip, base64_string_roundtrip); the reference split is join-inverse with at most limit+1 pieces (split_join, splitLimit_count, strReplace_self); the debug format of std.trace shortens long strings on whole characters only (debugTrunc_spec). The model is tied to the code by a differential run of every listed builtin, called in-process with Val arguments (about 3*10^5 calls quick), against both the code-shaped model and the code-point reference definitions.",
-    "level_note": "Partial: md5/sha1/sha256/sha512/sha3 are external crates and are not modelled — their outputs are compared with python hashlib on the generated strings (observation); parseJson is compared with python json and parseYaml with PyYAML on generated JSON-compatible documents (observation). split/splitLimit/splitLimitR/strReplace/endsWith/escapeString*/trim/length/stringChars/isEmpty/encodeUTF8/decodeUTF8(lossy, invalid input)/base64Decode of non-canonical input are compared with one reference definition by correspondence only (no theorem relates a separate code-shaped model to it). Trusted: Lean kernel; the hand model of strings.rs/encoding.rs (validated only by the correspondence run); Rust core's str::from_utf8/from_utf8_lossy/split/rsplitn/replace/trim_matches/to_ascii_uppercase, the base64 crate and the digest crates are reached only through correspondence/observation.",
-    "technique": "Lean 4 proof over code-point lists (UTF-8 prefix-freeness, induction over the char walk, exact-integer model of f64 mul_add) + differential correspondence + external oracles for digests and parsers",
+    "level_text": "Lean theorems over strings as code-point lists and byte strings as lists of naturals: the UTF-8 encoder/decoder pair is mutually inverse on scalar values, the strict decoder accepts nothing else and lossy decoding agrees with it on valid input (utf8_roundtrip, utf8_decode_sound, utf8_decode_rejects_invalid, utf8_lossy_valid, encodeUTF8_bytes); on invalid input lossy decoding passes valid leading text through, puts one U+FFFD for each maximal ill-formed prefix and resumes behind it, so every rejected input shows a U+FFFD (utf8_lossy_valid_prefix, utf8_lossy_invalid_step, utf8_lossy_marks_invalid); the byte-slice/char_indices walk of std.findSubstr returns exactly the ascending code-point indices of all, possibly overlapping, occurrences (findSubstr_spec, findSubstr_mem, findSubstr_sorted); byte-wise std.startsWith/endsWith are the code-point prefix/suffix tests (startsWith_spec, endsWith_spec); Rust's split/splitn/rsplitn/replace, modelled as the leftmost (from the back: rightmost) needle occurrence over ALL byte offsets with byte-offset slicing and the SplitN count, return exactly the UTF-8 encodings of the code-point split from the left / from the right / join-with-replacement, a needle never matching inside a multi-byte character, an empty `from` being an error and overlapping occurrences replaced once (splitLimit_spec, split_spec, splitLimitR_spec, strReplace_spec, strReplace_scan; split_join, splitLimit_count, strReplace_self for the reference); std.length as the count of non-continuation bytes, isEmpty as byte length zero and stringChars are the code-point notions (length_spec, isEmpty_spec, stringChars_spec); std.substr is the code-point window cut at the end of the string (substr_spec, substr_length); the stripChars family removes exactly a run of listed characters and std.trim does so for exactly {space, TAB, LF, FF, CR, U+0085, U+00A0} (lstrip_spec, rstrip_spec, strip_spec, trim_spec); the byte-table JSON/Python escaper (256-row table extracted from the source), the XML, Bash and Dollars escapers over bytes equal the per-code-point definitions (escapeStringJson_spec, escapeStringXml_spec, escapeStringBash_spec, escapeStringDollars_spec); parse_nat's checked_sub digit cascade and fused f64 fold give the exact positional value below 2^53, every later step is round-to-nearest-even of the exact base*acc+digit, the result is an error exactly for the empty string, a non-digit of the base (every non-ASCII character, ':'..'@', '+', space) or overflow of the f64 range, and parseInt takes one optional leading '-' (digitOf_spec, parseNat_spec, parseNat_reject_iff, non_digit_rejected, parseInt_spec, parseNatX_spec, parseNatX_reject_iff, parseNatX_refines, parseNat_step_rounding, parseInt_sign); std.char/std.codepoint are inverse on scalar values and std.char fails exactly on negatives, surrogates and values above U+10FFFF (char_codepoint_inverse, codepoint_char_inverse, char_err_iff); byte-wise asciiUpper/asciiLower/equalsIgnoreCase touch only ASCII letters (asciiUpper_spec, asciiLower_spec, upper_lower_ascii_only, equalsIgnoreCase_spec); base64 decoding inverts encoding and accepts ONLY canonical RFC 4648 encodings (base64_roundtrip, base64_string_roundtrip, base64_decode_sound, base64_decode_accepts_iff); std.parseJson accepts a text iff one value is followed by JSON whitespace only, by the independent RFC 8259 reader of C05 (parseJson_accepts_iff, parseJson_rejects_trailing); the debug format of std.trace shortens long strings on whole characters only (debugTrunc_spec). The model is tied to the code by a differential run of every listed builtin, called in-process with Val arguments (about 3*10^5 calls quick), against both the code-shaped byte-level model and the code-point reference definitions; std.parseJson accept/reject is compared with the Lean reader on about 1200 texts (valid documents, whitespace/junk heads and tails, single-character damage).",
+    "level_note": "Partial: md5/sha1/sha256/sha512/sha3 are external crates and are not modelled — their outputs are compared with python hashlib on the generated strings (observation); the VALUE std.parseJson returns is compared with python json and parseYaml with PyYAML on generated JSON-compatible documents (observation; only accept/reject of parseJson is compared with the Lean reader). The substring searcher is modelled by what it computes (leftmost / rightmost occurrence over all byte offsets), not as the Two-Way algorithm of core::str::pattern; split/splitLimit/splitLimitR with an EMPTY separator have no model. The length of the ill-formed prefix replaced by one U+FFFD in lossy decoding (`badLen`, Utf8Chunks) has one definition, compared by correspondence only; so has base64 encoding of byte arrays. Trusted: Lean kernel; the hand model of strings.rs/encoding.rs/manifest.rs escapers (validated by the correspondence run; the JSON escape table is re-extracted from the source on every run); Rust core's str::from_utf8/from_utf8_lossy/StrSearcher/trim_matches/to_ascii_uppercase, serde_json, the base64 crate and the digest crates are reached only through correspondence/observation.",
+    "technique": "Lean 4 proof over code-point lists (UTF-8 prefix-freeness and self-synchronisation, byte-offset searchers against code-point occurrences, induction over the char walk, exact-integer model of f64 mul_add) + differential correspondence + external oracles for digests and parsers",
     "engines": ["c11"],
     "extra": extra,
     "assumptions": [
         "strings are finite sequences of Unicode scalar values (Rust `str` invariant); byte arrays are sequences of integers 0..255",
-        "numeric results of parseInt/parseOctal/parseHex stay below 2^1024 (the f64 fold is modelled by exact round-to-nearest-even on naturals; inputs generated have at most 40 digits)",
+        "the f64 fold of parseInt/parseOctal/parseHex is modelled by exact round-to-nearest-even on naturals with overflow to +inf above the largest finite double (inputs generated have up to 400 digits); an infinite result is an error because it is not a jsonnet number",
         "the sign of a zero result (parseInt(\"-0\")) is not compared",
         "split/splitLimit/splitLimitR with an empty separator are outside the documented domain: only checked not to panic",
         "error text is not compared, only error-vs-value",
